@@ -151,3 +151,24 @@ Proof.
   rewrite E. cbv beta iota zeta. cbn [negb andb].
   destruct ((clen =? -2)%Z && true && negb (must_skip_content_length status)); destruct h11; reflexivity.
 Qed.
+
+(* ---- request side ---- *)
+Theorem req_close_http10 : forall fs, no_keep_alive fs -> req_close false fs = true.
+Proof.
+  intros fs Hk. unfold req_close, no_keep_alive in *.
+  destruct (rconn_of fs) as [cl first]. cbn [snd] in Hk.
+  assert (K : has_value (match first with Some v => v | None => [] end) bytestr_StrKeepAlive = false).
+  { destruct first as [v|]; [apply Hk; reflexivity|apply has_value_nil]. }
+  rewrite K. destruct cl; reflexivity.
+Qed.
+
+Theorem req_close_last_field : forall h11 fs name,
+  name <> [] -> ci_compare name bytestr_StrConnection = true ->
+  req_close h11 (fs ++ [(name, bytestr_StrClose)]) = true.
+Proof.
+  intros h11 fs name Hn Hc. unfold req_close, rconn_of. rewrite fold_left_app. cbn [fold_left].
+  match goal with |- context[rconn_step ?st _] => destruct st as [cl first] end.
+  assert (E : rconn_step (cl, first) (name, bytestr_StrClose) = (true, first)).
+  { unfold rconn_step. destruct name as [|c name']; [congruence|]. rewrite Hc. reflexivity. }
+  rewrite E. cbv beta iota zeta. cbn [negb andb]. destruct h11; reflexivity.
+Qed.
